@@ -43,6 +43,30 @@ const c19AddressSpace = 12 << 30
 
 const sigUsize = "c19-uncompressed-size-unbounded"
 
+// sigSplice marks findings caused by a filter section that was replaced by another VALID section:
+// a section certifies itself (its CRC travels inside it) and nothing in the block metadata binds it
+// to its block.
+const sigSplice = "c19-valid-section-splice"
+
+// validSectionSplice reports whether some block of the file now has, at its recorded filter
+// extent, bytes that differ from the original and still parse as a filter section.
+func validSectionSplice(orig tFile, mutated []byte) bool {
+	for i := range orig.meta.DataBlocks {
+		b := orig.meta.DataBlocks[i]
+		lo, hi := b.BloomFilterOffset, b.BloomFilterOffset+b.BloomFilterSize
+		if b.BloomFilterSize <= 0 || hi > len(mutated) || hi > len(orig.data) {
+			continue
+		}
+		if bytes.Equal(orig.data[lo:hi], mutated[lo:hi]) {
+			continue
+		}
+		if _, err := bs.VerifParseFilterSection(mutated[lo:hi]); err == nil {
+			return true
+		}
+	}
+	return false
+}
+
 func runC19(c *Ctx) {
 	if os.Getenv("BSVERIF_CHILD") == "" {
 		c19Supervise(c)
@@ -61,6 +85,7 @@ func runC19(c *Ctx) {
 	c19Cursor(c)
 	c19Streams(c)
 	c19Mutations(c)
+	c19SectionSwap(c)
 }
 
 // ---------------------------------------------------------------- supervisor
@@ -1156,7 +1181,14 @@ func c19MutationCase(c *Ctx, sh *shard, w *tWorld, files []tFile, k int, m mutat
 		desc["first_diff_at"] = d
 	}
 	c19Progress(fmt.Sprintf("mutation %s of %s in %s (world %d)", m.how, orig.pointer, part, wi))
-	viol := func(sig, what string) { c.violation(sig, fmt.Sprintf("%s [%s in %s of %s]", what, m.how, part, orig.pointer), desc) }
+	splice := validSectionSplice(orig, m.data)
+	viol := func(sig, what string) {
+		if splice && (sig == "c19-wrong-filters" || sig == "c19-wrong-answer") {
+			sig = sigSplice
+			what += " -- a block's filter section was replaced by another valid section"
+		}
+		c.violation(sig, fmt.Sprintf("%s [%s in %s of %s]", what, m.how, part, orig.pointer), desc)
+	}
 	slack := int64(len(orig.data) + len(m.data))
 
 	// (1) the file on its own: ReadFileMetadata, then the helpers with whatever it returned
@@ -1406,4 +1438,69 @@ func firstDiff(a, b []byte) int {
 		return n
 	}
 	return -1
+}
+
+// c19SectionSwap: the splice the random mutator almost never hits -- one block's whole filter
+// section overwritten by another block's (equally long, valid) section. Uniform rows make the
+// sections equally long; every row carries a token of its own, so a bloom query for that token
+// shows whether the block is still found.
+func c19SectionSwap(c *Ctx) {
+	shm := c.newShard("t19x", runnerT, "caseT", "mismatches", "violations")
+	shm.limit = 40
+	for wi := 0; wi < c.pick(2, 12); wi++ {
+		tc := c.tGenConfig()
+		tc.partitions, tc.cfg.PartitionFunc, tc.cfg.MinMaxIndexes = 0, nil, nil
+		tc.cfg.MaxRowGroupRows, tc.cfg.MaxBufferedRows, tc.cfg.MaxRowGroupBytes = 4, 1000, 1<<20
+		tc.desc = "uniform rows, 4 per block, " + string(tc.cfg.RowDataCompression)
+		w := c.tNewWorld(tc)
+		rows := make([]map[string]any, 16)
+		for i := range rows {
+			rows[i] = map[string]any{"id": i, "uniq": fmt.Sprintf("u%04d", i), "tag": "t"}
+		}
+		ctx := context.Background()
+		for i := 0; i < len(rows); i += 4 {
+			for _, r := range rows[i : i+4] {
+				b, _ := json.Marshal(r)
+				w.rows[r["id"].(int)], w.json[r["id"].(int)] = r, b
+			}
+			must(w.eng.IngestRows(ctx, rows[i:i+4], nil))
+			must(w.eng.Flush(ctx))
+		}
+		w.stop()
+		files := w.files()
+		type loc struct{ f, b int }
+		var locs []loc
+		for fi, f := range files {
+			for bi := range f.meta.DataBlocks {
+				locs = append(locs, loc{fi, bi})
+			}
+		}
+		for k := 0; k < c.pick(4, 20) && len(locs) >= 2; k++ {
+			a, b := locs[c.intn(len(locs))], locs[c.intn(len(locs))]
+			ba, bb := files[a.f].meta.DataBlocks[a.b], files[b.f].meta.DataBlocks[b.b]
+			secA := files[a.f].data[ba.BloomFilterOffset : ba.BloomFilterOffset+ba.BloomFilterSize]
+			secB := files[b.f].data[bb.BloomFilterOffset : bb.BloomFilterOffset+bb.BloomFilterSize]
+			if a == b || len(secA) != len(secB) || bytes.Equal(secA, secB) {
+				continue
+			}
+			mut := append([]byte(nil), files[a.f].data...)
+			copy(mut[ba.BloomFilterOffset:], secB)
+			// a row of block a, and the query that must find it
+			rd, err := bs.ReadDataBlockRowData(bytes.NewReader(files[a.f].data), &ba)
+			must(err)
+			first, _, _ := bs.NewBlockRowScanner(rd).Next()
+			id, _ := rowID(first)
+			q := bs.NewQuery().Token(fmt.Sprintf("u%04d", id)).Build()
+			good, _, _ := collect(w.eng, q)
+			queries := []*bs.Query{nil, q}
+			want := []map[int]int{idCounts(mustRows(collect(w.eng, nil))), idCounts(good)}
+			c19MutationCase(c, shm, w, files, a.f, mutation{"section-swap", mut}, "block-filters", queries, want, 1000+wi)
+		}
+	}
+}
+
+func mustRows(rows []map[string]any, qerr error, serr error) []map[string]any {
+	must(qerr)
+	must(serr)
+	return rows
 }
